@@ -20,7 +20,9 @@ claim("C09",
   "params_distinct / model_params_distinct (static guard g_no_raw_fallback over all parameter names: success => exactly client/url renamed to <name>_<location>, pairwise distinct); params_distinct_refuted "
   "(path x_header_path, path x_header, query X, header x -> two parameters x_header_path, no error). "
   "(c) enum member keys: values_from_list_keys_nodup (Values.v). (d) classes: classes_distinct_or_error (generated class names pairwise distinct; every schema generated or reported; of two schemas with one derived "
-  "ClassName the later is reported) and modules_unchecked_refuted (AB / Ab: two classes, one module ab). "
+  "ClassName the later is reported) and modules_unchecked_refuted (AB / Ab: two classes, one module ab); the class-name scope WITH enums (EnumProperty.build: member table first, then `values != existing.values` as dict "
+  "equality, equal twin replaces the entry, enum vs model reported): enum_classes_distinct_or_shared (class names pairwise distinct; every generated enum class holds exactly the member table of one declared value list; "
+  "two unreported enums with one class name have the same member names with the same values; an enum and a model of one class name are never both kept). "
   "(e) attributes of a schema composed with allOf, where merging (Merge.v, C15) and the name-conflict scan interact: ProcProps.v models the loop of _process_properties over the incoming properties "
   "(referenced members' properties with the python names their own processing left on them, own properties, inline members' properties) - merge with the stored property of the same document name "
   "(Merge.add_prop), python name of the merged object = that of whichever side _merge_common_attributes takes as base (base_is_new, branch by branch), scan over the other entries SKIPPING the same-name entry "
@@ -32,7 +34,10 @@ claim("C09",
   "schema of a document), process_step_distinct_refuted (member {fooBar, FooBar}, then Foo_bar, $foo_Bar, foo_Bar, then fooBar re-declared as date: distinct before the merge step, two attributes foo_Bar after it; "
   "confirmed on the real parser; same call site as attr_rename_unchecked), non-vacuity process_merge_fallback (startDate, start_date, startDate re-declared as date) and process_guard_nonvacuous. "
   "Correspondence evaluated inside Coq: ~25k (function,string) cases per quick run for Names.v; ~1.7k name lists per quick run for Scopes.v through the real property_from_data (object schema -> python names or "
-  "'Conflicting property names'), Endpoint.add_parameters (python names in iteration order or ParseError) and GeneratorData.from_dict (class names + duplicate-model errors); ~1k (quick) / ~14k (thorough) random components-only documents "
+  "'Conflicting property names'), Endpoint.add_parameters (python names in iteration order or ParseError) and GeneratorData.from_dict (class names + duplicate-model errors); ~350 declaration sequences (enum twins whose member names coincide while values differ in case / delimiters / VALUE_n form, inline enums, "
+  "object schemas) through a threaded real property_from_data and ~120 documents through GeneratorData.from_dict vs Scopes.model_decls; for ~30 generated trees per quick run (operationIds / tags / schema names from a hostile pool: "
+  "leading digits, symbols only, empty, keywords) the api/<tag>/, api/<tag>/<operation>.py and models/<class>.py names are compared in Coq with Names.python_identifier of the parsed names (oracles on the same outputs: every generated "
+  "enum class holds exactly one declared value list and every unreported declared enum is held by some class; every directory and .py stem of a generated tree is a valid non-keyword identifier); ~1k (quick) / ~14k (thorough) random components-only documents "
   "(composed schema Z = allOf of 2-4 referenced / inline objects + own properties over name families that collide after snake-casing, kinds any/string/date/date-time/integer/number/string and int enums inline and by $ref, "
   "frequent re-declaration with type refinement) through GeneratorData.from_dict: Z's (name, python_name, property class, enum values, required) in required-then-optional order, or which of the three diagnostics "
   "(merge / same python_name / member not processed), == ProcProps.process_doc inside Coq; on the same outputs the oracle demands pairwise distinct valid python names and accepts a duplicate as attr_rename_unchecked only when "
